@@ -327,6 +327,9 @@ def Cons.specialFormat (c : Cons) : Bool :=
   | some f => nonStringFormats.contains f
   | none => false
 
+/-- the member is not a `String`: its format is one of the listed ones, or `from_format` resolves it to another type -/
+def Cons.notStringTyped (c : Cons) : Bool := c.specialFormat || primOf c != .string
+
 /-- the `pattern` arm -/
 def regexAttrs (compiles : List Char → Bool) (c : Cons) (tr : TRef) : List VAttr :=
   match c.pattern with
@@ -339,7 +342,8 @@ def extract (compiles : List Char → Bool) (req : Bool) (c : Cons) (tr : TRef) 
   if c.isNumeric then
     fmtAttrs c ++ (rangeAttr c tr).toList
   else if c.isFreeformString then
-    if c.specialFormat then fmtAttrs c
+    -- since the `fix:` commit aa73532 (finding F01-16) the RESOLVED type is consulted too: `format: int64` on a string schema is an `i64`
+    if c.specialFormat || tr.base != .string then fmtAttrs c
     else fmtAttrs c ++ (lengthAttr c.minLength c.maxLength (req && !tr.nullable)).toList ++ regexAttrs compiles c tr
   else if c.isArray then
     fmtAttrs c ++ (lengthAttr c.minItems c.maxItems false).toList
@@ -517,10 +521,10 @@ def KnownItemConstraintsLost (l : Leaf) : Bool :=
   | some i => i.hasNumericKw || i.hasStringKw || i.isEmailFmt || i.isUrlFmt
   | none => false
 
-/-- string with a date / date-time / time / duration / byte / binary / uuid format: minLength, maxLength
-and pattern are skipped -/
+/-- string with a date / date-time / time / duration / byte / binary / uuid format — or with a format that resolves to a
+numeric type (`int64`, `double`, …) —: minLength, maxLength and pattern are skipped -/
 def KnownSpecialFormatSkipsLength (c : Cons) : Bool :=
-  c.isFreeformString && c.specialFormat && c.hasStringKw
+  c.isFreeformString && c.notStringTyped && c.hasStringKw
 
 /-- a pattern the `regex` crate rejects is dropped with a warning -/
 def KnownUncompilableRegex (rx : Rx) (c : Cons) : Bool :=
